@@ -153,3 +153,87 @@ class ExprCase(Case):
 
 def make_expr(which):
     return ExprCase(which)
+
+
+class ExprShapes(Case):
+    """The whole evaluator on a *fixed token sequence* with SYMBOLIC identifier values: the real Expression.evaluate is
+    interpreted and its result term is proved equal to the reference (precedence-climbing) term for all values.
+    Token sequences are enumerated (bounded over shapes, unbounded over values)."""
+
+    functions = ["dissect/cstruct/expression.py:Expression.evaluate", "dissect/cstruct/expression.py:Expression.evaluate_exp"]
+    timeout_ms = 20000
+
+    def __init__(self, exprs, idx):
+        self.exprs = exprs
+        self.name = f"expr:shapes[{idx}]"
+
+    def body(self, ctx):
+        import z3 as _z3
+
+        from dissect.cstruct import cstruct
+        from dissect.cstruct.expression import Expression
+        from pyvc import models
+        from specs import expr as ref
+        import ast as _ast
+
+        cs = cstruct()
+        cs.load("#define K 6\nstruct S { uint8 a; uint32 b; };")
+        it = Interp(ctx)
+        x, y, z = _z3.Int("x"), _z3.Int("y"), _z3.Int("z")
+        ctx.assume(_z3.And(x >= 0, y >= 1, z >= 1, y <= 64, z <= 1000))
+        env = {"x": x, "y": y, "z": z}
+        opmap = {"*": _ast.Mult, "/": _ast.FloorDiv, "%": _ast.Mod, "+": _ast.Add, "-": _ast.Sub, "<<": _ast.LShift, ">>": _ast.RShift,
+                 "&": _ast.BitAnd, "|": _ast.BitOr, "^": _ast.BitXor}
+
+        def apply_op(op, a, b):
+            return models.binop(it, opmap[op](), a, b)
+
+        def neg(v):
+            return models.binop(it, _ast.Sub(), 0, v)
+
+        def inv(v):
+            return models.binop(it, _ast.Sub(), models.binop(it, _ast.Sub(), 0, v), 1)
+
+        for s in self.exprs:
+            try:
+                want = ref.evaluate(s, env, cs.consts, lambda n: len(cs.resolve(n)), apply_op=apply_op, neg=neg, inv=inv)
+            except Exception as e:  # noqa: BLE001 - outside the modelled operator subset
+                continue
+            e = Expression(cs, s)
+            try:
+                got = it.call(Expression.evaluate, [e, dict(env)])
+            except PyRaise as ex:
+                ctx.prove(f"{s!r}/evaluates", False, info=f"raised {ex.cls.__name__}")
+                continue
+            ctx.prove(f"{s!r}/equals-C-precedence-value-for-all-x,y,z", _norm(zint(got) == zint(want)))
+            got2 = it.call(Expression.evaluate, [e, dict(env)])
+            ctx.prove(f"{s!r}/repeatable", _norm(zint(got2) == zint(want)))
+        ctx.cover("done")
+
+
+def shape_specs(tier="quick"):
+    import itertools
+
+    ops = ["*", "/", "%", "+", "-", "<<", ">>"]
+    atoms = ["x", "y", "z", "3", "K"]
+    exprs = []
+    for o1, o2 in itertools.product(ops, repeat=2):
+        exprs.append(f"x {o1} y {o2} z")
+        exprs.append(f"x {o1} (y {o2} z)")
+        exprs.append(f"-x {o1} y {o2} ~z")
+        exprs.append(f"K {o1} 3 {o2} y")
+    for o1, o2, o3 in itertools.product(["*", "+", "-", "/", "<<"], repeat=3):
+        exprs.append(f"x {o1} y {o2} z {o3} 2")
+        if tier != "quick":
+            exprs.append(f"(x {o1} y) {o2} (z {o3} 2)")
+    for a in atoms:
+        for u in ("-", "~", "--", "-~", "~-"):
+            exprs.append(f"{u}{a}")
+            exprs.append(f"2 * {u}{a} + 1")
+    exprs += ["x & 7", "(x + y) & 0xFF", "x % y & 3", "sizeof(S) * x + y", "x + sizeof(uint16) * 2", "x >> 2 << 2", "x & 0xF0 >> 4"]
+    chunks = [exprs[i::16] for i in range(16)]
+    return [("contracts.exprs", "make_shapes", (c, i)) for i, c in enumerate(chunks) if c]
+
+
+def make_shapes(exprs, idx):
+    return ExprShapes(exprs, idx)
